@@ -8,7 +8,7 @@ nearest representable value, ties to even" — which is what IEEE-754 prescribes
 for `+ - * /`, what `float(int)`, `int / int` and `struct.pack('>f', x)` do in
 CPython, and what `round(x, n)` does (correctly rounded decimal via dtoa, then
 correctly rounded back via strtod).  Only `Nat` operations that the kernel
-evaluates with GMP (`+ * / % ^ log2 <<< >>>`) are used, so `decide +kernel` can
+evaluates with GMP (`+ * / % ^ <<< >>>`, comparisons) are used, so `decide +kernel` can
 run these definitions.
 
 Validated bit-for-bit against CPython by the correspondence runs of C08/C09
@@ -27,12 +27,18 @@ def rhe (a b : Nat) : Nat :=
   let r := a % b
   if 2 * r < b then d else if b < 2 * r then d + 1 else if d % 2 == 0 then d else d + 1
 
+/-- `⌊log₂ t⌋` for `1 ≤ t < 2^8192` (saturating above) by binary search over comparisons with powers of
+two: `Nat.log2` itself is not evaluated natively by the kernel, `^` and `≤` are. -/
+def ilog2 (t : Nat) : Nat :=
+  [4096, 2048, 1024, 512, 256, 128, 64, 32, 16, 8, 4, 2, 1].foldl
+    (fun acc bit => if 2 ^ (acc + bit) ≤ t then acc + bit else acc) 0
+
 /-- nearest natural with at most `prec` significant bits to `a / b`, ties to even -/
 def roundPrec (prec a b : Nat) : Nat :=
   let t := a / b
   if t < 2 ^ prec then rhe a b
   else
-    let s := Nat.log2 t + 1 - prec
+    let s := ilog2 t + 1 - prec
     rhe a (b * 2 ^ s) * 2 ^ s
 
 inductive F where
@@ -173,7 +179,7 @@ def roundN (x : F) (nd : Int) : Option F :=
 /-- smallest `d` with `|x| ≤ 10^d` for finite non-zero `x` (= `ceil(log10(abs(x)))`). -/
 def ceilLog10 (n : Nat) : Int :=
   -- estimate from the binary exponent, then correct
-  let e2 : Int := (Nat.log2 n : Int) - 1074
+  let e2 : Int := (ilog2 n : Int) - 1074
   let d0 : Int := e2 * 30103 / 100000
   let leP (d : Int) : Bool :=   -- n·2^-1074 ≤ 10^d
     match d with
@@ -211,7 +217,7 @@ def bits32 : F → Nat
     let sg := if s then 0x80000000 else 0
     if m < 2 ^ 23 then sg + m
     else
-      let sh := Nat.log2 m - 23
+      let sh := ilog2 m - 23
       sg + (sh + 1) * 2 ^ 23 + ((m >>> sh) - 2 ^ 23)
 
 /-- `struct.unpack('>f', …)`: exact widening -/
@@ -232,7 +238,7 @@ def bits64 : F → Option Nat
     let sg := if s then 2 ^ 63 else 0
     if n < 2 ^ 52 then some (sg + n)
     else
-      let sh := Nat.log2 n - 52
+      let sh := ilog2 n - 52
       some (sg + (sh + 1) * 2 ^ 52 + ((n >>> sh) - 2 ^ 52))
 
 def ofBits64 (b : Nat) : F :=
